@@ -1096,6 +1096,17 @@ func digitProduct(a auxParams, levelP int, split func(levelP, nbPi int)) {
 	split(levelP, a.PCount())
 }
 
+// CONDIDX control: the sign of the first component decides the rounding of the second
+func roundPair(v [][2]float64) {
+	for i := range v {
+		if v[i][0] >= 0 {
+			v[i][1] = v[i][1] + 0.5
+		} else {
+			v[i][1] = v[i][1] - 0.5
+		}
+	}
+}
+
 // ADVFWD control: the wrapper halves the forwarded count
 type wrapParams struct{ rows int }
 
